@@ -234,7 +234,15 @@ C06_LossProRata(w1, e, w2) ==
       LET ui == Unb(w2.hist[i], tok) uj == Unb(w2.hist[j], tok)
           li == ui - Paid(w2.hist[i], tok)  lj == uj - Paid(w2.hist[j], tok)
       IN (li >= 0 /\ lj >= 0) => AbsCrossDiffLe(li, uj, lj, ui, 2 * (ui + uj))
-C06_Step(w1, e, w2, o1) == C06_CheckStores(e, w2, o1) /\ C06_LossProRata(w1, e, w2)
+\* ... and between the two token types of the group in proportion to their unbonded value
+C06_LossPerType(w1, e, w2) ==
+  LET G == NewlyReleased(w1, w2) IN
+  (G # {} /\ ~IsProbe(e)) =>
+    LET ub  == SumFn([i \in G |-> Unb(w2.hist[i], "b")], G)   ust == SumFn([i \in G |-> Unb(w2.hist[i], "st")], G)
+        lb  == ub - SumFn([i \in G |-> Paid(w2.hist[i], "b")], G)
+        lst == ust - SumFn([i \in G |-> Paid(w2.hist[i], "st")], G)
+    IN (ub > 0 /\ ust > 0 /\ lb >= 0 /\ lst >= 0) => AbsCrossDiffLe(lb, ust, lst, ub, (2 * Cardinality(G) + 4) * (ub + ust))
+C06_Step(w1, e, w2, o1) == C06_CheckStores(e, w2, o1) /\ C06_LossProRata(w1, e, w2) /\ C06_LossPerType(w1, e, w2)
 
 -----------------------------------------------------------------------------
 \* C07 - every unbonded token is in exactly one batch claim of its sender
